@@ -421,6 +421,29 @@ def rule_refused_scope_masks(ctx, facts, rule):
               "LocalSpan entered under `other` is delivered under the enclosing parent, in its trace", extra="refusal-invisible")
 
 
+def rule_refuses_only_when_full(ctx, facts, rule):
+    """Setting a local parent opens a scope unless the scope stack is full: in register_span_line every path that does
+    not cross the `len(span_lines) >= capacity` edge reaches the push of the new span line. (A second reason to refuse --
+    "this parent is already on top" -- leaves the open local span of the enclosing line as the current local parent.)"""
+    fn = ctx.need_fn(facts, STACK + "register_span_line", rule)
+    if fn is None:
+        return
+    prov = Prov(facts)
+    pushes = field_pushes(fn, prov, "span_lines", "SpanLine")
+    refuse, accept = capacity_edges(fn, prov, "span_lines")
+    if not pushes or not refuse:
+        ctx.fail(rule, fn.path, fn.span, "register_span_line tests the capacity and pushes a span line",
+                 "anchor lost: pushes %s, capacity edges %s" % (pushes, sorted((a, d) for a, d, _ in refuse)), extra="only-when-full")
+        return
+    ok, wit = fn.must_pass([0], pushes, avoid_edges=refuse)
+    ctx.check(ok, rule, fn.path, fn.span,
+              "a scope is refused only when the scope stack is full: every other path pushes the new span line",
+              "push sites %s, refusing edges %s" % (pushes, sorted((a, d) for a, d, _ in refuse)),
+              "a path returns at bb%s without pushing a span line although the stack is not full: the guard handed out is a no-op and "
+              "the thread's local context stays what it was (an open local span of the enclosing scope remains the current local parent)" % wit,
+              extra="only-when-full")
+
+
 def rule_unregister_always_pops(ctx, facts, rule):
     """Releasing a scope removes a scope: every returning path of unregister_and_collect passes Vec::pop on span_lines
     (a release that keeps the line -- e.g. because the epochs differ -- leaves a ghost local parent behind for the rest of
